@@ -46,10 +46,13 @@ class Case:
         self.unshare = unshare
         self.intervene = None
         self.kill = None
+        self.pre = None
+        self.quiet = False
+        self.kp = None
         self.seed = 0
         self.valid = []             # hex strings known to be marshalled configurations (beyond the observed ones)
         self.env = {"euid": 0, "rlimit": None, "ro": set(), "full": set(), "gone": set(), "mode": {},
-                    "rename_fail": False, "interv": None}
+                    "rename_fail": False, "close_fail": False, "interv": None}
         self.add("setdir", dir="$D%d" % (ndirs - 1))
 
     def add(self, op, **kw):
@@ -59,7 +62,7 @@ class Case:
         e = self.env
         self.meta.append({"euid": e["euid"], "rlimit": e["rlimit"], "ro": set(e["ro"]), "full": set(e["full"]),
                           "gone": set(e["gone"]), "mode": dict(e["mode"]), "rename_fail": e["rename_fail"],
-                          "interv": e["interv"]})
+                          "close_fail": e["close_fail"], "interv": e["interv"]})
         if op in STORE_OPS:
             e["interv"] = None
         return self
@@ -78,13 +81,34 @@ class Case:
              "unshare": self.unshare, "seed": self.seed}
         if self.intervene:
             d["intervene"] = self.intervene
+        if self.pre:
+            d["pre"] = self.pre
+        d["quiet"] = self.quiet
         if self.kill:
             d = {"name": self.name, "ndirs": 1, "kill": self.kill, "seed": self.seed, "script": []}
         return d
 
 
+def ser_case(c):
+    return {"name": c.name, "ndirs": c.ndirs, "unshare": c.unshare, "script": c.script, "inject": c.inject,
+            "intervene": c.intervene, "valid": c.valid,
+            "meta": [{k: (sorted(v) if isinstance(v, set) else v) for k, v in m.items()} for m in c.meta]}
+
+
+def replay_items(ctx, key):
+    """cases stored in a replay file (under failures[].case / theorem_or_correspondence[].case)"""
+    rp = ctx.replay or {}
+    out = []
+    for ent in (rp.get("failures") or []) + (rp.get("theorem_or_correspondence") or []) + (rp.get("broken") or []):
+        cs = ent.get("case") or {}
+        for x in cs.get(key) or []:
+            if x not in out:
+                out.append(x)
+    return out
+
+
 def cfg(rng, size="small", gen=None, **kw):
-    nd = {"tiny": rng.randrange(0, 3), "small": rng.randrange(1, 12), "medium": rng.randrange(20, 160)}[size]
+    nd = {"tiny": rng.randrange(0, 3), "small": rng.randrange(1, 12), "medium": rng.randrange(20, 90)}[size]
     d = {"gen": gen if gen is not None else rng.randrange(1, 1 << 20), "ndecoys": nd, "seed": rng.randrange(1 << 30),
          "keylen": rng.choice([0, 16, 32, 32, 32])}
     d.update(kw)
@@ -240,8 +264,20 @@ def gen_scripted(ctx):
         c.store("setconf", cfg=cfg(rng, "small"))
         rand_store(c, rng, "small")
         cases.append(finish_case(c))
-    for c in (ctx.replay or {}).get("scripted", []):
-        rc = Case(c["name"], ndirs=c["ndirs"], unshare=c.get("unshare", False))
+    # S9 close fails after a complete write (error injected by strace into every close of the child)
+    for n in range(1 if quick else 4):
+        c = Case("closefail%d" % n, ndirs=2)
+        c.add("writefile", dir="$D0", name="ClientConf", data="1005")
+        c.valid.append("1005")
+        c.inject = ["close:error=EIO:when=400+"]
+        c.add("setdir", dir="$D0")
+        c.add("arm_close")
+        c.env["close_fail"] = True
+        c.store("setconf", cfg=cfg(rng, "small"))
+        rand_store(c, rng, "small")
+        cases.append(finish_case(c))
+    for c in replay_items(ctx, "scripted"):
+        rc = Case(c["name"] + "_replay", ndirs=c["ndirs"], unshare=c.get("unshare", False))
         rc.script, rc.meta, rc.inject, rc.intervene, rc.valid = c["script"], c["meta"], c.get("inject", []), c.get("intervene"), c.get("valid", [])
         for m in rc.meta:
             for k in ("ro", "full", "gone"):
@@ -268,7 +304,83 @@ def gen_kill(ctx):
             c.kill = {"trials": max(1, trials // parts), "variants": vs, "max_ms": maxms}
             c.seed = rng.randrange(1 << 30)
             out.append(c)
+    for n, k in enumerate(replay_items(ctx, "killcase")):
+        c = Case("kill_%s_replay%d" % (k.get("kind", "small"), n), ndirs=1)
+        c.kill = {"trials": k.get("trials", 20), "variants": k["variants"], "max_ms": k.get("max_ms", 50.0)}
+        c.seed = k.get("seed", 0)
+        out.insert(0, c)
     return out
+
+
+def gen_killpoints(ctx):
+    """deterministic crash points: strace kills the child on entry of the store's first write / of its rename"""
+    rng = ctx.rng
+    out = []
+    for n in range(6 if ctx.tier == "quick" else 36):
+        c = Case("kp%d" % n, ndirs=2)
+        c.quiet = True
+        a = cfg(rng, "small")
+        if n % 3 == 0:
+            c.inject, c.kp = ["renameat:signal=SIGKILL"], "before-rename"
+            b = cfg(rng, rng.choice(["tiny", "small", "medium"]))
+        else:
+            c.kp = "mid-write"
+            b = cfg(rng, "medium")
+        c.kp_has_prev = (n // 3) % 3 != 2
+        c.pre = [{"op": "setdir", "dir": "$D1"}, {"op": "setdir", "dir": "$D0"}]
+        if c.kp_has_prev:
+            c.pre.append({"op": "setconf", "cfg": a})
+        c.pre.append({"op": "digest", "cfg": b})
+        c.add("setdir", dir="$D0")
+        if c.kp == "mid-write":
+            c.kp_k = rng.choice([0, 1, rng.randrange(2, 500), rng.randrange(2, 500)])
+            c.add("rlimit", k=c.kp_k)
+            c.add("xfsz_default")
+        c.add("setconf", cfg=b)
+        out.append(c)
+    return out
+
+
+def eval_kp(ctx, c, out):
+    pre = out.get("pre_res") or []
+    case_id = {"case": c.name, "crash_point": c.kp, "pre": c.pre, "script": c.script, "exit": out["exit"]}
+    if len(pre) != len(c.pre) or ("killed" not in out["exit"] and "file size limit" not in out["exit"]):
+        ctx.broken("driver", "kill-point case %s: pre-phase %d/%d results, child exit %s (expected to be killed by strace at %s)"
+                   % (c.name, len(pre), len(c.pre), out["exit"], c.kp))
+        return []
+    prev = pre[2]["want"] if c.kp_has_prev else {"has": False, "len": 0}
+    new = pre[-1]["want"]
+    ls = (out.get("post_ls") or [[]])[0] or []
+    file = next((e["dig"] for e in ls if e["name"] == "ClientConf"), None)
+    temps = [e for e in ls if e["name"] != "ClientConf"]
+    if file is None:
+        match = "prev" if not prev["has"] else "absent"
+    elif prev["has"] and hx(file) == hx(prev):
+        match = "prev"
+    elif hx(file) == hx(new):
+        match = "new"
+    else:
+        match = "none"
+    ctx.count((c.name, c.kp, match, len(temps)), nontrivial=True, kind="kill/kp-%s/%s/%s" % (c.kp, match, "in-temp" if temps else "between"))
+    if match == "none":
+        ctx.fail("kill:kp-%s:file-neither-previous-nor-new" % c.kp, "process killed at '%s': the ClientConf file (%d bytes) is neither the "
+                 "previous nor the new configuration" % (c.kp, file["len"]), case_id)
+    elif match == "absent":
+        ctx.fail("kill:kp-%s:file-missing" % c.kp, "process killed at '%s': the ClientConf file is missing" % c.kp, case_id)
+    global INTERN
+    INTERN = Intern()
+    obs = []
+    if file is not None:
+        obs.append("(Target, %s)" % g_bspec(file))
+    r, tl = 0, 0
+    for e in temps:
+        if not hx(new).startswith(hx(e["dig"])):
+            ctx.broken("correspondence", "the temporary left at crash point '%s' is not a prefix of the new configuration" % c.kp, case_id)
+        pp = proj_path(out["dirs"][0] + "/" + e["name"], out["dirs"])
+        r, tl = pp[1][1], e["dig"]["len"]
+        obs.append("(Tmp %s, %s)" % (gN(r), g_bspec(e["dig"])))
+    pv = "(Some %s)" % ihex(bytes.fromhex(hx(prev))) if prev["has"] else "None"
+    return [INTERN.wrap("(%s, %s, %s, %s, %s)" % (pv, ihex(bytes.fromhex(hx(new))), gN(r), gN(tl), glist(obs)))]
 
 
 # ------------------------------------------------------------------ strace projection
@@ -431,8 +543,33 @@ def hx(dig):
     return dig.get("hex", "")
 
 
+class Intern:
+    """names for the byte strings of one case, so that every literal is written (and type-checked) once"""
+    def __init__(self):
+        self.names = {}
+
+    def __call__(self, b):
+        h = bytes(b).hex()
+        if len(h) < 24:
+            return hexs(bytes.fromhex(h))
+        if h not in self.names:
+            self.names[h] = "b%d" % len(self.names)
+        return self.names[h]
+
+    def wrap(self, term):
+        lets = "".join("let %s := unhex \"%s\" in\n" % (n, h) for h, n in self.names.items())
+        return "(%s%s)" % (lets, term)
+
+
+INTERN = Intern()
+
+
+def ihex(b):
+    return INTERN(b)
+
+
 def g_bspec(dig):
-    return "(Lit %s)" % hexs(bytes.fromhex(hx(dig)))
+    return "(Lit %s)" % ihex(bytes.fromhex(hx(dig)))
 
 
 def g_fault(f):
@@ -454,7 +591,7 @@ def dir_index(path, dirs):
 def eval_scripted(ctx, c, out):
     """direct oracle + Gallina term for one scripted case; returns the term or None"""
     dirs = out["dirs"]
-    res = out["res"]
+    res = out["res"] or []
     name = c.name
     kind = re.sub(r"\d+$", "", name)
     if out["exit"] != "ok" or len(res) != len(c.script):
@@ -465,6 +602,8 @@ def eval_scripted(ctx, c, out):
         ctx.count((name, "skipped"), nontrivial=False, kind="skipped/intervention-missed")
         return None
     steps, rs, _ = project_trace(out["trace"], dirs)
+    global INTERN
+    INTERN = Intern()
     for r in res:
         for k in ("want", "mem"):
             if r.get(k) and r[k]["has"] and "hex" not in r[k] and r[k]["len"] > 0:
@@ -480,7 +619,8 @@ def eval_scripted(ctx, c, out):
     trace_terms = []
     for i, (op, meta, r) in enumerate(zip(c.script, c.meta, res)):
         o = op["op"]
-        case_id = {"case": name, "op_index": i, "op": op, "cause": {k: (sorted(v) if isinstance(v, set) else v) for k, v in meta.items()}}
+        case_id = {"case": name, "op_index": i, "op": op, "cause": {k: (sorted(v) if isinstance(v, set) else v) for k, v in meta.items()},
+                   "result": {k: v for k, v in r.items() if k in ("err",)}, "scripted": [ser_case(c)]}
         if o == "ls":
             d = dir_index(r["dir"], dirs)
             if r["err"] == "ok":
@@ -503,7 +643,7 @@ def eval_scripted(ctx, c, out):
             continue
         if o == "writefile":
             pp = proj_path(dirs[int(op["dir"][2:])] + "/" + op["name"], dirs)
-            items.append("IWrite %s %s" % (g_path(pp), hexs(bytes.fromhex(op["data"]))))
+            items.append("IWrite %s %s" % (g_path(pp), ihex(bytes.fromhex(op["data"]))))
             if op["name"] == "ClientConf":
                 disk[pp[0]] = op["data"]
             continue
@@ -515,7 +655,7 @@ def eval_scripted(ctx, c, out):
         if o == "mkdir":
             items.append("IEnv (MkDir %s)" % gN(int(op["dir"][2:])))
             continue
-        if o in ("seteuid", "rlimit", "chmod", "mount_tmpfs", "remount_ro", "fill"):
+        if o in ("seteuid", "rlimit", "chmod", "mount_tmpfs", "remount_ro", "fill", "arm_close", "xfsz_default", "digest"):
             if r["err"] != "ok":
                 ctx.broken("driver", "case %s: harness operation %s failed: %s" % (name, o, r["err"]))
                 return None
@@ -532,7 +672,7 @@ def eval_scripted(ctx, c, out):
                 valid.add(mem_hex)
                 continue
             pl = "mkPlan 0 NoFault NoFault NoFault NoFault []"
-            items.append("IOp (SetDir %s) (%s) (%s, %s)" % (gN(d), pl, gbool(ok), gopt(mem_hex, lambda h: "(Lit %s)" % hexs(bytes.fromhex(h)))))
+            items.append("IOp (SetDir %s) (%s) (%s, %s)" % (gN(d), pl, gbool(ok), gopt(mem_hex, lambda h: "(Lit %s)" % ihex(bytes.fromhex(h)))))
             trace_terms += [g_tstep(s) for s in steps.get(i, [])]
             newcwd = dir_index(r["dir"], dirs)
             # oracle: a successful load makes the in-memory configuration equal to the file
@@ -576,6 +716,8 @@ def eval_scripted(ctx, c, out):
             cause = "dir-removed-before-rename"
         elif meta["rename_fail"]:
             frn, cause = "now", "rename-fails"
+        elif meta.get("close_fail"):
+            fcl, cause = "now", "close-fails"
         after_ls = {}
         for k in range(i + 1, len(res)):
             if c.script[k]["op"] != "ls":
@@ -629,13 +771,13 @@ def eval_scripted(ctx, c, out):
         r0 = rs.get(i, [0])
         rr = r0[0] if r0 else 0
         pl = "mkPlan %s %s %s %s %s %s" % (gN(rr), g_fault(fc), g_fault(fw), g_fault(fcl), g_fault(frn), glist(envs))
-        wt = "None" if want_hex is None else "(Some %s)" % hexs(bytes.fromhex(want_hex))
+        wt = "None" if want_hex is None else "(Some %s)" % ihex(bytes.fromhex(want_hex))
         opt = "SetConf %s" % wt if o == "setconf" else "Mutate (fun _ => %s)" % wt
-        items.append("IOp (%s) (%s) (%s, %s)" % (opt, pl, gbool(ok), gopt(mem_hex, lambda h: "(Lit %s)" % hexs(bytes.fromhex(h)))))
+        items.append("IOp (%s) (%s) (%s, %s)" % (opt, pl, gbool(ok), gopt(mem_hex, lambda h: "(Lit %s)" % ihex(bytes.fromhex(h)))))
         trace_terms += [g_tstep(s) for s in stp]
-    vt = glist(sorted(v for v in valid if v is not None), lambda h: hexs(bytes.fromhex(h)))
-    term = "(%s, %s, %s, %s, %s)" % (vt, hexs(bytes.fromhex(mem0)), gN(c.ndirs - 1), "[" + ";\n  ".join(items) + "]", glist(trace_terms))
-    return term
+    vt = glist(sorted(v for v in valid if v is not None), lambda h: ihex(bytes.fromhex(h)))
+    term = "(%s, %s, %s, %s, %s)" % (vt, ihex(bytes.fromhex(mem0)), gN(c.ndirs - 1), "[" + ";\n  ".join(items) + "]", glist(trace_terms))
+    return INTERN.wrap(term)
 
 
 def eval_kill(ctx, c, out):
@@ -646,7 +788,8 @@ def eval_kill(ctx, c, out):
         k["temp_prefix"] = k.get("temp_prefix") or []
         case_id = {"case": c.name, "trial": t, "observed": {x: k[x] for x in ("last_done", "delay_ms", "match", "parse_ok", "reload_err")},
                    "file_len": k["file"]["len"], "prev_len": k["prev"]["len"], "new_len": k["new"]["len"],
-                   "variants": c.kill["variants"], "seed": c.seed}
+                   "killcase": [{"kind": kind, "variants": c.kill["variants"], "seed": c.seed, "trials": c.kill["trials"],
+                                 "max_ms": c.kill["max_ms"]}]}
         phase = "in-temp" if k["temps"] else "between"
         ctx.count((c.name, t, k["last_done"], k["match"], len(k["temps"])), nontrivial=k["last_done"] > 0,
                   kind="kill/%s/%s/%s" % (kind, k["match"], phase))
@@ -668,17 +811,18 @@ def eval_kill(ctx, c, out):
         small = lambda d: (not d["has"]) or d["len"] == 0 or "hex" in d
         if small(k["new"]) and small(k["file"]) and small(k["prev"]) \
                 and all("hex" in e["dig"] or e["dig"]["len"] == 0 for e in k["temps"]) and k["match"] in ("prev", "new"):
+            global INTERN
+            INTERN = Intern()
             obs = []
             if k["file"]["has"]:
                 obs.append("(Target, %s)" % g_bspec(k["file"]))
             r, tl = 0, 0
             for e in k["temps"]:
-                m = TMP_RE.match(e["name"])
-                r = b62(m.group(1)) if m else 0
-                tl = e["dig"]["len"]
-                obs.append("(%s, %s)" % ("Tmp %s" % gN(r) if m else "Other 0%N", g_bspec(e["dig"])))
-            prev = "(Some %s)" % hexs(bytes.fromhex(hx(k["prev"]))) if k["prev"]["has"] else "None"
-            terms.append("(%s, %s, %s, %s, %s)" % (prev, hexs(bytes.fromhex(hx(k["new"]))), gN(r), gN(tl), glist(obs)))
+                pp = proj_path("/d/" + e["name"], ["/d"])
+                r, tl = pp[1][1], e["dig"]["len"]
+                obs.append("(Tmp %s, %s)" % (gN(r), g_bspec(e["dig"])))
+            prev = "(Some %s)" % ihex(bytes.fromhex(hx(k["prev"]))) if k["prev"]["has"] else "None"
+            terms.append(INTERN.wrap("(%s, %s, %s, %s, %s)" % (prev, ihex(bytes.fromhex(hx(k["new"]))), gN(r), gN(tl), glist(obs))))
     return terms
 
 
@@ -702,12 +846,19 @@ def run(ctx):
                        "a store and between close and rename, failing rename) plus SIGKILL trials on loops of small and multi-megabyte "
                        "stores; a case is non-trivial if it is a hash-distinct (case, call, cause) that reached the store or a kill "
                        "trial in which at least one store had completed")
+    import time
+    tm = {}
+    t0 = time.time()
     ctx.coq_props()
+    tm["coq_props"] = round(time.time() - t0, 1)
     scripted = gen_scripted(ctx)
     kills = gen_kill(ctx)
-    allc = scripted + kills
+    kps = gen_killpoints(ctx)
+    allc = scripted + kills + kps
     rc, outtxt, outs = ctx.go_inpkg(".", "pkg/client/assets", {"zz_verif_driver_test.go": "c20/assets_driver_test.go"},
                                     "^TestVerifC20$", [c.to_json() for c in allc], timeout=2400)
+    tm["go"] = round(time.time() - t0 - tm["coq_props"], 1)
+    ctx.cov["timing"] = tm
     if outs is None or len(outs) != len(allc):
         ctx.broken("driver", "Go driver did not produce results: rc=%s %s" % (rc, outtxt[-1200:]))
         return
@@ -718,8 +869,10 @@ def run(ctx):
             terms.append(t)
             term_cases.append((c, o))
     kterms = []
-    for c, o in zip(kills, outs[len(scripted):]):
+    for c, o in zip(kills, outs[len(scripted):len(scripted) + len(kills)]):
         kterms += eval_kill(ctx, c, o)
+    for c, o in zip(kps, outs[len(scripted) + len(kills):]):
+        kterms += eval_kp(ctx, c, o)
     if scripted:
         c, o = scripted[0], outs[0]
         ctx.sample({"case": c.name, "script": c.script[:6], "results": [{k: v for k, v in r.items() if k in ("op", "err")} for r in o["res"][:6]],
@@ -730,24 +883,24 @@ def run(ctx):
     ctx.require_kinds(["setconf/healthy/ok", "mutate/healthy/ok", "setconf/marshal/err", "setconf/unwritable/err",
                        "setconf/quota-rlimit/err", "setconf/quota-enospc/err", "setconf/readonly-fs/err",
                        "setconf/dir-gone/err", "setconf/dir-removed-before-rename/err", "setconf/rename-fails/err",
-                       "setdir/ok", "setdir/err"])
+                       "setconf/close-fails/err", "setdir/ok", "setdir/err",
+                       "kill/kp-before-rename/prev/in-temp", "kill/kp-mid-write/prev/in-temp"])
     hist = ctx.cov["histogram"]
     for kind in ("small", "big", "mixed"):
         if not any(k.startswith("kill/%s/" % kind) for k in hist):
             ctx.broken("generator-selftest", "no kill trial of kind %s ran" % kind)
     if not any(k.startswith("kill/") and k.endswith("/in-temp") for k in hist):
         ctx.broken("generator-selftest", "no kill landed inside a store (no temporary was ever left behind)")
-    mm = ctx.coq_mismatches("script", HEADER, terms, "chk", shard=12, need_vo=["C20/Run.vo"])
+    t1 = time.time()
+    mm = ctx.coq_mismatches("script", HEADER, terms, "chk", shard=5, need_vo=["C20/Run.vo"])
+    tm["coq_script"] = round(time.time() - t1, 1)
     if mm:
         ctx.cov["mismatches"] += len(mm)
         c, o = term_cases[mm[0]]
         shown = ctx.coq_show("mm", HEADER, "show (%s)" % terms[mm[0]])
         ctx.broken("correspondence", "model C20.Run and the implementation disagree on %d scripted case(s); first: %s; model says: %s"
                    % (len(mm), c.name, shown[-900:]),
-                   {"scripted": [{"name": c.name, "ndirs": c.ndirs, "unshare": c.unshare, "script": c.script, "inject": c.inject,
-                                  "intervene": c.intervene, "valid": c.valid,
-                                  "meta": [{k: (sorted(v) if isinstance(v, set) else v) for k, v in m.items()} for m in c.meta]}],
-                    "observed": {"res": o["res"], "trace": o["trace"][:60]}})
+                   {"scripted": [ser_case(c)], "observed": {"res": o["res"], "trace": o["trace"][:60]}})
     if kterms:
         mk = ctx.coq_mismatches("kill", HEADER, kterms, "chk_kill", shard=40)
         if mk:
